@@ -366,6 +366,12 @@ func c07Gen(r *Rng, n int) []string {
 			cfg.Keys = keyAlpha
 		}
 		m := r.RootMap(&cfg)
+		if r.P(12) {
+			// a document built around one path with several list levels on it (gen.go chainDoc);
+			// DerivedPath then varies that path (wildcard, one index, several indexes)
+			cm, cp := r.chainDoc(&cfg)
+			m, r.chainMap, r.chainPath = cm, cm, cp
+		}
 		if r.P(8) {
 			// several lists that together cross the initial result capacity (32 / SetArraySize)
 			k := 2 + r.Intn(6)
@@ -438,7 +444,9 @@ func c07Gen(r *Rng, n int) []string {
 				path = r.Pick([]string{"w.*", "*.*", "w.*.a", "w.a", "*"})
 			}
 			if lookAhead && r.P(80) {
-				path = r.Pick([]string{"doc.item.rec[0].tag", "doc.item.rec[1].tag", "doc.item.rec[0].sub.tag", "doc.item.rec[0].*", "doc.item.rec[0]", "doc.item.rec[0].sub[1].tag", "doc.item[1].rec[0].tag", "*.item.rec[0].tag"})
+				path = r.Pick([]string{"doc.item.rec[0].tag", "doc.item.rec[1].tag", "doc.item.rec[0].sub.tag", "doc.item.rec[0].*", "doc.item.rec[0]", "doc.item.rec[0].sub[1].tag", "doc.item[1].rec[0].tag", "*.item.rec[0].tag",
+					// two indexed steps with a plain LIST step between them: the first parent contributes several values
+					"doc.item.rec[0].sub.tag[0]", "doc.item.rec[1].sub.tag[0]", "doc.item.rec[0].sub.tag[1]", "doc.item.rec[0].tag[1]", "doc.item.rec[0].sub[0].tag[0]", "doc.item.rec.sub[1].tag[0]"})
 			}
 			if _, wide := m["a"].([]interface{}); wide && len(m) == 2 && r.P(70) {
 				path = r.Pick([]string{"a.b", "a.c.b", "a.*.b", "*.b", "a.*", "a.b[1]", "a.c.b[0]"})
